@@ -305,7 +305,8 @@ def exec {V R : Type} (w : World V) (f : V → Int → R) (cross : V → Int →
     if consume = 0 then (s1, ⟨⟨[], .fuel⟩, [], []⟩)
     else
       let (cleared, r) := iterRun w fuel i a
-      let taken := r.dates.take consume
+      -- an iterator that fails before `clear_listeners` (argument errors) has not yielded anything
+      let taken := if cleared then r.dates.take consume else []
       let fin := if consume ≤ r.dates.length then Fin.fuel else r.fin
       let prev0 := if cleared then setPrev s1.prev ls none else s1.prev
       let prev1 := match taken.getLast? with
